@@ -11,6 +11,10 @@ import (
 func convertMap(ctx context.Context, rv reflect.Value, rt reflect.Type) (reflect.Value, error) {
 	rtKey := rt.Key()
 	rtElem := rt.Elem()
+	if rv.IsNil() {
+		// a nil map stays nil, as in Go
+		return reflect.Zero(rt), nil
+	}
 
 	// create new map
 	// note creating slice as work around to create map
